@@ -518,19 +518,19 @@ theorem mixins_map_is_canonical :
 
 theorem mixins_map_covers_exactly : Pinned.mixinsMap.length = canonicalTypes.length := by decide
 
-/-- over gRPC the response deserializer is the canonical output type (`Empty` ↦ `None`) for every mixin
-RPC except `WaitOperation` … -/
-theorem grpc_response_canonical_partial (m : String) (hm : m ∈ allApis.flatMap (·.methods))
-    (hw : m ≠ "WaitOperation") : (grpcSpec m).map (·.resp) = canonicalResp m := by
+/-- **Over gRPC the response deserializer is the canonical output type (`Empty` ↦ `None`) for every
+mixin RPC** — including `WaitOperation` since the `fix:` commit feb77eb (regression: its stub used
+`response_deserializer=None` and the clients returned raw bytes). -/
+theorem grpc_response_canonical (m : String) (hm : m ∈ allApis.flatMap (·.methods)) :
+    (grpcSpec m).map (·.resp) = canonicalResp m := by
   simp only [allApis, List.flatMap_cons, List.flatMap_nil, MixinApi.methods, List.append_nil, List.cons_append,
     List.nil_append, List.mem_cons, List.not_mem_nil, or_false] at hm
-  rcases hm with rfl | rfl | rfl | rfl | rfl | rfl | rfl | rfl | rfl | rfl <;> first | decide | exact absurd rfl hw
+  rcases hm with rfl | rfl | rfl | rfl | rfl | rfl | rfl | rfl | rfl | rfl <;> decide
 
-/-- … whose stub is built with `response_deserializer=None`: the clients return the raw response
-bytes, not an `Operation` (reproduced on the emitted library: finding `grpc-wait-operation-raw-bytes`). -/
-theorem wait_operation_grpc_response_counterexample :
-    (grpcSpec "WaitOperation").map (·.resp) = some .rawBytes ∧
-      canonicalResp "WaitOperation" = some (.message "google.longrunning.Operation") := by
+/-- regression for feb77eb: `wait_operation` yields an `Operation`, and no stub returns raw bytes -/
+theorem wait_operation_grpc_response_regression :
+    (grpcSpec "WaitOperation").map (·.resp) = some (.message "google.longrunning.Operation") ∧
+      ∀ kv ∈ grpcTable, kv.2.resp ≠ .rawBytes := by
   decide
 
 /-- a selected mixin RPC, called on either client without the legacy option, goes out with its table entry -/
@@ -586,9 +586,7 @@ theorem legacy_sync_call (y : Yaml) (api : Api) (m : String) (hm : m ∈ tmplIam
   have hc : (exposedMixins y api ⟨true⟩ .sync).contains m = true :=
     List.contains_iff_mem.2 (legacy_iam_three_methods_both_clients y api .sync m hm)
   obtain ⟨s, hs, hp, hr, _⟩ := canonical_paths .iam m hm
-  have hresp := grpc_response_canonical_partial m (by
-      revert hm; simp only [tmplIam, List.mem_cons, List.not_mem_nil, or_false]
-      rintro (rfl | rfl | rfl) <;> decide) (by
+  have hresp := grpc_response_canonical m (by
       revert hm; simp only [tmplIam, List.mem_cons, List.not_mem_nil, or_false]
       rintro (rfl | rfl | rfl) <;> decide)
   refine ⟨s, ?_, hp, hr, ?_⟩
